@@ -113,8 +113,23 @@ def check(name, backend, v, parts, res=None):
     tolC = 1e-2 if name in LINEAR else 5e-2
     nev = 0
     fmin = ref_profile(w, free, {}, None)
+    if "cov-after-refit" in parts:
+        # a second minimisation after the problem changed (one more constraint): every result belongs to the new minimum
+        with warnings.catch_warnings():
+            warnings.simplefilter("ignore")
+            if name == "quad-con" or w.cons:
+                w.apply(("con", "matrix-cov") if "matrix-cov" not in w.cons else ("con", "simple-rel"))
+            else:
+                w.apply(("con", "simple"))
+            w.apply(("fit",))
+        free = free_pars(w)
+        idx = [w.par_names.index(p) for p in free]
+        C = np.asarray(f.parameter_cov_mat, dtype=float)
+        errs = np.asarray(f.parameter_errors, dtype=float)
+        sig = errs[idx]
+        fmin = ref_profile(w, free, {}, None)
     after = [p for p in parts if p.startswith("cov-after-")]
-    if after:
+    if after and "cov-after-refit" not in parts:
         # the same definitions must hold after a query that pins parameters, re-minimises and restores the minimiser state
         with warnings.catch_warnings():
             warnings.simplefilter("ignore")
@@ -243,7 +258,7 @@ def check(name, backend, v, parts, res=None):
     return out, nev, w
 
 
-PARTS = ["cov", "cov-after-profile", "cov-after-profile-cl", "cov-after-asym", "profile", "asym", "contour", "band"]
+PARTS = ["cov", "cov-after-profile", "cov-after-profile-cl", "cov-after-asym", "cov-after-refit", "profile", "asym", "contour", "band"]
 
 
 def jobs(tier, seed):
@@ -264,7 +279,7 @@ def jobs(tier, seed):
 
 
 def bound(tier, seed):
-    return "%d fitted problems x {iminuit, scipy} x {covariance/errors/correlation (also after a profile, a profile by confidence level and an asymmetric-error query), 7-point profiles of every free parameter (first parameter: every combination of the subtract_min setting / argument and points argument), asymmetric errors, 1- and 2-sigma contours of the first parameter pair (10 points), band at 5 points}; scipy profiles/asymmetric errors on 3 problems and no scipy contours in the quick tier; valuation(s) %s" % (
+    return "%d fitted problems x {iminuit, scipy} x {covariance/errors/correlation (also after a profile, a profile by confidence level, an asymmetric-error query, and after a refit with one more constraint), 7-point profiles of every free parameter (first parameter: every combination of the subtract_min setting / argument and points argument), asymmetric errors, 1- and 2-sigma contours of the first parameter pair (10 points), band at 5 points}; scipy profiles/asymmetric errors on 3 problems and no scipy contours in the quick tier; valuation(s) %s" % (
         len(PROBS_QUICK if tier == "quick" else PROBS_ALL),
         (seed % 3) if tier == "quick" else "0,1,2",
     )
